@@ -120,3 +120,61 @@ Proof.
     apply (C15_throw_effect qok_list QSpec_list None ex_state 0 (EUser 1) s' 0 (proj1 (proj1 C09_example)) E).
   - vm_compute. repeat split; reflexivity.
 Qed.
+
+(* ------------------------------------------------------------------------------------
+   The priority loop: qok_pos (Props/C09.v) meets QSpec (C09_qspec_prio), so the theorems above
+   hold with the PosPriorityQueue as ready queue (boost factor 0); Inv09 qok_pos holds in every
+   reachable state of the priority loop by C09_inv_prio. *)
+From Asynkit Require Import Sched.PrioQueueProofs.
+
+(* the running task is always refused, on the priority loop *)
+Theorem C15_current_refused_prio :
+  forall s t e, InvC qok_pos (Some t) s -> exists k, task_throw s t e = (s, RExc (ERuntime k)).
+Proof. exact (throw_current_refused qok_pos QSpec_pos). Qed.
+Print Assumptions C15_current_refused_prio.
+
+(* an accepted task_throw on the priority loop: exactly one handle for t, the new
+   HStep t (Some e), queued in the PosPriorityQueue; everything else as on the list loop *)
+Theorem C15_throw_effect_prio :
+  forall c s t e s' v,
+  InvC qok_pos c s -> task_throw s t e = (s', RVal v) ->
+  let hn := length (handles s) in
+  InvC qok_pos c s' /\ is_cur c t = false /\ tdone s' t = false /\
+  hcnt s' t = 1 /\ bo s' t = None /\ twaiter (gett s' t) = None /\
+  handles s' = handles s ++ [mkH (HStep t (Some e)) false] /\ In hn (rq_items (ready s')) /\
+  (forall g, getf s' g = getf s g \/ (bo s t = Some g /\ getf s' g = strip_wakeup t (getf s g))) /\
+  (forall g, fstate_ (getf s' g) = fstate_ (getf s g)) /\
+  (forall t' g, t' <> t -> ccnt s' t' g = ccnt s t' g) /\
+  (forall g, fdone s' g = false -> ccnt s' t g = 0) /\
+  (forall t', t' <> t -> gett s' t' = gett s t') /\
+  gett s' t = gett s t <| twaiter := None |> /\
+  (forall t', t' <> t -> hcnt s' t' = hcnt s t') /\
+  locks s' = locks s /\ conds s' = conds s /\ events s' = events s /\ blocks s' = blocks s /\
+  timers s' = timers s /\ now s' = now s /\ current s' = current s /\ log s' = log s /\
+  errors s' = errors s.
+Proof. exact (throw_effect qok_pos QSpec_pos). Qed.
+Print Assumptions C15_throw_effect_prio.
+
+(* no second resumption on the priority loop *)
+Theorem C15_no_second_resume_prio :
+  forall c s t g x s' ok,
+  InvC qok_pos c s -> is_cur c t = false -> t < length (tasks s) -> tdone s t = false ->
+  bo s t = None -> x <> FPending -> fut_finish s g x = (s', ok) -> hcnt s' t = hcnt s t.
+Proof. exact (no_second_resume qok_pos QSpec_pos). Qed.
+Print Assumptions C15_no_second_resume_prio.
+
+(* non-vacuity: throwing at the blocked task 0 of the priority-loop example state *)
+Example C15_example_prio :
+  let s := ex_state_prio in
+  let s' := fst (task_throw s 0 (EUser 1)) in
+  snd (task_throw s 0 (EUser 1)) = RVal 0 /\
+  InvC qok_pos None s' /\ bo s 0 = Some 1 /\ bo s' 0 = None /\ hcnt s' 0 = 1 /\
+  rq_items (ready s) = [3; 2] /\ rq_items (ready s') = [3; 4; 2].
+Proof.
+  cbv zeta. split; [vm_compute; reflexivity|]. split.
+  - destruct (task_throw ex_state_prio 0 (EUser 1)) as [s' r] eqn:E.
+    assert (Hr : r = RVal 0) by (apply (f_equal snd) in E; vm_compute in E; congruence).
+    subst r. simpl.
+    apply (C15_throw_effect_prio None ex_state_prio 0 (EUser 1) s' 0 (proj1 (proj1 C09_example_prio)) E).
+  - vm_compute. repeat split; reflexivity.
+Qed.
